@@ -3,7 +3,7 @@ from . import register
 
 register(
     "C10",
-    lean_modules=["GtModel.Props.C10"],
+    lean_modules=["GtModel.Props.C10", "GtModel.Props.C10x"],
     theorems=[
         "GtModel.C10.none_no_cross_key",
         "GtModel.C10.none_no_multiset",
@@ -11,16 +11,28 @@ register(
         "GtModel.C10.no_list_edits_positional",
         "GtModel.C10.no_list_edits_same_length_positional",
         "GtModel.C10.no_list_edits_root",
+        # children of XML / HTML elements (model GtModel.Xml.xmlEdits / kidsScript, stream scriptxml)
+        "GtModel.C10.xml_no_list_edits_positional",
+        "GtModel.C10.xml_no_list_edits_same_length_positional",
+        "GtModel.C10.xml_no_list_edits_positional_docs",
+        "GtModel.C10.xml_no_list_edits_same_length_positional_docs",
+        "GtModel.C10.xml_no_list_edits_children",
+        "GtModel.C10.xml_no_list_edits_same_length_children",
+        "GtModel.C10.xml_list_edits_allowed",
     ],
-    streams=["script", "scriptx"],
+    streams=["script", "scriptx", "scriptxml"],
     assumptions=[
         "the engine has fully tightened every bound (the model is the static final script)",
-        "trees are those json.build_tree makes; the list options do not reach CSV rows / XML child lists "
-        "(constructed without options) which are outside the model",
+        "trees are those json.build_tree makes (a CSV table = the list of lists of strings csv.build_tree makes, rows "
+        "and cells carrying the list options) and the XML / HTML elements xml.build_tree makes (xml_* theorems); both "
+        "trees of a comparison are built with the same options (ListNode.edits reads the flags of the from-list)",
     ],
     trusted=[
         "correspondence stream `script`: GtModel.edits / GtModel.build reproduce the real engine's final script "
-        "under all 16 option combinations",
+        "under all 16 option combinations, incl. CSV tables loaded by the real CSV loader under default / -l / -ll",
+        "correspondence stream `scriptxml`: GtModel.Xml.xmlEdits reproduces the real engine's final script for XML / "
+        "HTML elements under eight option sets (all combinations of the two list options), built directly and through "
+        "the registered XML and HTML file types",
     ],
     partial="",
 )
